@@ -30,7 +30,12 @@ AX_FOLD = [
               patterns=[FoldSig(_N, _l, _k + 1)]),
 ]
 _S, _sg, _b = z3.Const("S!c", T.SpaceS), z3.Const("sg!c", SigS), z3.Bool("b!c")
+_c1, _c2, _c3 = z3.Const("c1!c", M.OptLS.sort()), z3.Const("c2!c", M.OptLS.sort()), z3.Const("c3!c", M.OptLV.sort())
 AX_CACHE = [
+    # each cached field is individually correct when present: forgetting the candidates keeps the rest consistent
+    z3.ForAll([_N, _S, _sg, _b, _c1, _c2, _c3], z3.Implies(CacheOK(_N, _S, _sg, _b, _c1, _c2, _c3),
+                                                          CacheOK(_N, _S, _sg, _b, M.OptLS.none().t, _c2, _c3)),
+              patterns=[CacheOK(_N, _S, _sg, _b, _c1, _c2, _c3)]),
     # unknown caches are always consistent
     z3.ForAll([_N, _S, _sg, _b], CacheOK(_N, _S, _sg, _b, M.OptLS.none().t, M.OptLS.none().t, M.OptLV.none().t),
               patterns=[CacheOK(_N, _S, _sg, _b, M.OptLS.none().t, M.OptLS.none().t, M.OptLV.none().t)]),
